@@ -67,4 +67,27 @@ example :
     (write 10 [1, 2, 3, 4, 5] [.n 2, .eagain, .n 9] [] 0) = ([1, 2, 3, 4, 5], 3, true) ∧
     (runWS (wInit 2 1) [some 0, none, none, some 1, some 0, none, none, none]).written = 2 := by decide
 
+
+/-! ### one epoll event: write-ready is never lost, whatever else the event carries -/
+
+/-- a writer parked on EAGAIN waits for one `writeReady`; what the kernel reports is the union of what happened since
+    the last report (edge triggered), so the token must be posted whatever else the event carries -/
+theorem c18_write_ready_not_lost (e : Events) (h : e.rdhup = false) (ho : e.out = true) :
+    EvAct.writeReady ∈ handleEvent e := by
+  simp [handleEvent, h, ho]
+
+theorem c18_read_ready_not_lost (e : Events) (h : e.rdhup = false) (hi : e.in_ = true) :
+    EvAct.readReady ∈ handleEvent e := by
+  simp [handleEvent, h, hi]
+
+/-- nothing is done that the event did not ask for, and a hang-up does nothing else -/
+theorem c18_event_exact (e : Events) :
+    (EvAct.writeReady ∈ handleEvent e ↔ e.rdhup = false ∧ e.out = true) ∧
+    (EvAct.readReady ∈ handleEvent e ↔ e.rdhup = false ∧ e.in_ = true) ∧
+    (EvAct.remoteClose ∈ handleEvent e ↔ e.rdhup = true) := by
+  cases e with
+  | mk r i o => cases r <;> cases i <;> cases o <;> simp [handleEvent]
+
+example : handleEvent { in_ := true, out := true } = [.readReady, .writeReady] := by decide
+
 end Props.C18
